@@ -28,6 +28,18 @@ func (r *Run) RunUntil(t int, point string) bool {
 	return false
 }
 
+// RunUntilOrTry is RunUntil, but when the thread's next operation blocks (according to the
+// model) before it reaches the point, it is let go anyway and must be seen waiting there.
+func (r *Run) RunUntilOrTry(t int, point string) bool {
+	if r.RunUntil(t, point) {
+		return true
+	}
+	if !r.Aborted && r.parked[t] != nil && !r.M.Enabled(t) {
+		r.Do(Decision{K: "try", T: t})
+	}
+	return false
+}
+
 // RunToEnd lets thread t run until it ends (or cannot run any more).
 func (r *Run) RunToEnd(t int) bool {
 	for i := 0; i < 400 && !r.Aborted; i++ {
